@@ -26,8 +26,9 @@
 (* observations) it stops with skip # "" and the run is counted, not judged.   *)
 EXTENDS Integers, Sequences, FiniteSets, TLC
 
-CONSTANT Deviations     \* reserved for named deviations (none at present: where texlang knowingly differs from
-                        \* TeX outside the listed properties the model stops with a skip instead of taking sides)
+CONSTANT Deviations     \* "DecideC07": take TeX's side where a finding of C07 shows (otherwise such runs are counted, not
+                        \* judged); "NoRelaxBeforeEarlyElse", "LetToUndefinedIsNoOp": the recorded behaviour of texlang.
+                        \* Where texlang knowingly differs from TeX outside the listed properties the model stops with a skip.
 
 PrimNames == << "def", "gdef", "global", "let", "count", "countdef", "chardef", "advance",
                 "multiply", "divide", "the", "relax", "expandafter", "noexpand", "iftrue",
@@ -87,12 +88,15 @@ Tick(S) == IF S.fuel <= 0 THEN Skip(S, "skip-fuel")
            ELSE IF Len(S.inp) > 800 THEN Skip(S, "skip-input-explosion")
            ELSE [S EXCEPT !.fuel = @ - 1]
 
-MeanOf(S, t) == IF t.k = "cs" THEN S.mean[t.v] ELSE TokAlias(t)
-IsPrimTok(S, t, p) == t.k = "cs" /\ S.mean[t.v] = Prim(p)
+\* the name 0 is TeX's frozen \relax (TeX 379 insert_relax): a control sequence no definition can reach
+FrozenRelax == Tok("cs", 0)
+Mn(S, v) == IF v = 0 THEN Prim(P_relax) ELSE S.mean[v]
+MeanOf(S, t) == IF t.k = "cs" THEN Mn(S, t.v) ELSE TokAlias(t)
+IsPrimTok(S, t, p) == t.k = "cs" /\ Mn(S, t.v) = Prim(p)
 ExpandablePrims == {P_the, P_expandafter, P_noexpand, P_iftrue, P_iffalse, P_ifnum, P_ifodd, P_ifcase,
                     P_or, P_else, P_fi}
 IfPrims == {P_iftrue, P_iffalse, P_ifnum, P_ifodd, P_ifcase}
-Expandable(S, t) == t.k = "cs" /\ (S.mean[t.v].m = "macro" \/ (S.mean[t.v].m = "prim" /\ S.mean[t.v].a \in ExpandablePrims))
+Expandable(S, t) == t.k = "cs" /\ (Mn(S, t.v).m = "macro" \/ (Mn(S, t.v).m = "prim" /\ Mn(S, t.v).a \in ExpandablePrims))
 
 \* a reader's result: the state after reading, the token, whether \noexpand protected it, end of input
 Got(S, t, nx) == [s |-> S, t |-> t, nx |-> nx, none |-> FALSE]
@@ -179,8 +183,8 @@ CallMacro(S, id) ==
 
 \* ---------------------------------------------------------------------------------------------
 \* conditionals: skipping looks at the current meaning of every token, never expands (TeX 494)
-TokIsIf(S, t)   == t.k = "cs" /\ S.mean[t.v].m = "prim" /\ S.mean[t.v].a \in IfPrims
-TokIs(S, t, p)  == t.k = "cs" /\ S.mean[t.v] = Prim(p)
+TokIsIf(S, t)   == t.k = "cs" /\ Mn(S, t.v).m = "prim" /\ Mn(S, t.v).a \in IfPrims
+TokIs(S, t, p)  == t.k = "cs" /\ Mn(S, t.v) = Prim(p)
 
 \* scan from i at nesting level l for the first \fi (and, if wantElse, \else / \or) at level 0:
 \* [i |-> index of the terminator or 0, p |-> which primitive]
@@ -259,9 +263,22 @@ TokVar(S, t) ==
        ELSE IF r.v \notin 0..(NTok - 1) THEN [s |-> Skip(r.s, "skip-register-outside-model"), var |-> 0]
        ELSE [s |-> r.s, var |-> r.v]
 
+\* TeX 498: a conditional is on the condition stack while its condition is still being scanned (if_limit =
+\* if_code); an \else, \or or \fi that turns up then - a number ended directly by it - does not end anything:
+\* TeX 510 puts it back behind a frozen \relax, which ends the number.  texlang pushes its branch only after the
+\* condition is known (finding C07/no-relax-before-early-else: the token then acts on the enclosing conditional
+\* or is reported as unexpected).  That finding is decided by C07's check ("DecideC07"); elsewhere the run is counted.
+Marked == "NoRelaxBeforeEarlyElse" \notin Deviations
+Begin(S, c) == IF Marked THEN PushCond(S, c, "eval") ELSE S
+\* the condition is known: Q.conds must be as Begin left it (d entries); otherwise a conditional opened inside
+\* the condition is still open (TeX 498 change_if_limit walks the stack for that) - outside the model
+Known(Q, d) == IF ~Marked \/ Stopped(Q) THEN Q
+               ELSE IF Len(Q.conds) # d THEN Skip(Q, "skip-conditional-left-open-inside-a-condition")
+               ELSE PopCond(Q)
+
 \* expand the expandable token t, which was just consumed
 ExpandOnce(S0, t) ==
-  LET S == Tick(S0) mn == S.mean[t.v] IN
+  LET S == Tick(S0) mn == Mn(S, t.v) IN
   IF Stopped(S) THEN S
   ELSE IF mn.m = "macro" THEN CallMacro(S, mn.a)
   ELSE IF mn.a = P_expandafter
@@ -286,21 +303,21 @@ ExpandOnce(S0, t) ==
   ELSE IF mn.a = P_iftrue THEN PushCond(S, "if", "then")
   ELSE IF mn.a = P_iffalse THEN SkipFalse(S)
   ELSE IF mn.a = P_ifodd
-  THEN LET r == ScanInt(S) IN
-       IF Stopped(r.s) THEN r.s ELSE IF r.v % 2 # 0 THEN PushCond(r.s, "if", "then") ELSE SkipFalse(r.s)
+  THEN LET B == Begin(S, "if") r == ScanInt(B) Q == Known(r.s, Len(B.conds)) IN
+       IF Stopped(Q) THEN Q ELSE IF r.v % 2 # 0 THEN PushCond(Q, "if", "then") ELSE SkipFalse(Q)
   ELSE IF mn.a = P_ifnum
-  THEN LET l == ScanInt(S) IN
+  THEN LET B == Begin(S, "if") l == ScanInt(B) IN
        IF Stopped(l.s) THEN l.s
        ELSE LET RECURSIVE Rel(_) Rel(Q) == LET x == GetXS(Q) IN IF ~x.none /\ x.t.k = "sp" /\ ~Stopped(x.s) THEN Rel(x.s) ELSE x
                 o == Rel(l.s) IN
             IF o.none \/ Stopped(o.s) THEN Fail(o.s, "ifnum: eof")
             ELSE IF ~(o.t.k = "ch" /\ o.t.v \in {60, 61, 62}) THEN Fail(o.s, "ifnum: no relation")
-            ELSE LET r == ScanInt(o.s) IN
-                 IF Stopped(r.s) THEN r.s
+            ELSE LET r == ScanInt(o.s) Q == Known(r.s, Len(B.conds)) IN
+                 IF Stopped(Q) THEN Q
                  ELSE IF (o.t.v = 60 /\ l.v < r.v) \/ (o.t.v = 61 /\ l.v = r.v) \/ (o.t.v = 62 /\ l.v > r.v)
-                      THEN PushCond(r.s, "if", "then") ELSE SkipFalse(r.s)
+                      THEN PushCond(Q, "if", "then") ELSE SkipFalse(Q)
   ELSE IF mn.a = P_ifcase
-  THEN LET r == ScanInt(S) IN
+  THEN LET B == Begin(S, "case") r0 == ScanInt(B) r == [s |-> Known(r0.s, Len(B.conds)), v |-> r0.v] IN
        IF Stopped(r.s) THEN r.s
        ELSE IF r.v < 0 \/ r.v > 1000
             THEN \* no such case: only \else (or nothing) remains
@@ -312,7 +329,11 @@ ExpandOnce(S0, t) ==
                        ELSE ToElse(DropTo(Q, q.i))
                  IN ToElse(r.s)
             ELSE SkipCase(r.s, r.v)
-  ELSE IF mn.a \in {P_or, P_else, P_fi} THEN EndBranch(S, mn.a)
+  ELSE IF mn.a \in {P_or, P_else, P_fi}
+  THEN IF S.conds # << >> /\ S.conds[Len(S.conds)].br = "eval"
+       THEN (IF "DecideC07" \in Deviations THEN BackSeq(S, << FrozenRelax, t >>)
+             ELSE Skip(S, "skip-early-else-decided-by-C07"))
+       ELSE EndBranch(S, mn.a)
   ELSE Fail(S, "internal: not expandable")    \* \noexpand is handled by GetX
 
 \* the next unexpandable token (TeX 380 get_x_token), \noexpand handled as in TeX 369 / texlang's hook
@@ -478,6 +499,7 @@ Target(S0) ==
              IF lead >= 2 THEN [ok |-> FALSE, s |-> Skip(S0, "skip-two-spaces-before-target"), n |-> 0]
              ELSE IF g.none THEN [ok |-> FALSE, s |-> Fail(g.s, "target: eof"), n |-> 0]
              ELSE IF g.t.k # "cs" THEN [ok |-> FALSE, s |-> Fail(g.s, "target: not a control sequence"), n |-> 0]
+             ELSE IF g.t.v = 0 THEN [ok |-> FALSE, s |-> Skip(g.s, "skip-frozen-relax-as-target"), n |-> 0]
              ELSE [ok |-> TRUE, s |-> g.s, n |-> g.t.v]
 
 \* TeX 474-479: in a parameter text # must be followed by the next parameter number; in a body # is
@@ -529,10 +551,11 @@ Let(S, glob) ==
                 ELSE a IN
        IF b.none THEN Fail(b.s, "let: eof")
        ELSE LET mn == MeanOf(b.s, b.t) IN
-            IF mn = Undef
-            THEN \* TeX makes \a undefined; texlang leaves \a as it was.  No listed property speaks about it:
-                 \* the run is outside the model whichever of the two the code does
+            IF mn = Undef /\ "DecideC07" \notin Deviations
+            THEN \* TeX makes \a undefined; texlang leaves \a as it was (finding C07/let-to-undefined-is-no-op: an
+                 \* alias of \fi survives it).  Decided by C07's check; elsewhere the run is counted
                  Skip(b.s, "skip-let-to-undefined")
+            ELSE IF mn = Undef /\ "LetToUndefinedIsNoOp" \in Deviations THEN b.s
             ELSE SetMean(b.s, tg.n, mn, IsGlobal(b.s, glob))
 
 \* \countdef / \chardef <target> [=] <int>
